@@ -220,6 +220,17 @@ def apalache(module, inv, length=0, timeout=300):
     if "The outcome is: Error" in p.stdout: return False, p.stdout
     return None, p.stdout
 
+def tlapm_note(run, module, role, timeout=600):
+    """re-prove a TLAPS module and record the outcome in the run's evidence.  The theorems support the design (they are not what decides
+    the property on the tree under test), so a prover that is missing or fails for environmental reasons is recorded, not fatal."""
+    t0 = time.time()
+    try:
+        nob, _ = tlapm(module, timeout)
+        run.mc_runs.append({"module": module, "role": role, "obligations_proved": nob, "wall_s": round(time.time() - t0, 1)})
+    except Infra as e:
+        run.mc_runs.append({"module": module, "role": role, "obligations_proved": 0, "wall_s": round(time.time() - t0, 1)})
+        run.notes.append("TLAPS proof of %s was not re-established in this run: %s" % (module, str(e)[:300]))
+
 def tlapm(module, timeout=600):
     """tlapm on a copy of spec/<module>.tla in the scratch directory; returns (number of obligations proved, output); raises Infra unless all are proved"""
     d = os.path.join(scratch(), "tlaps_" + module); os.makedirs(d, exist_ok=True)
